@@ -4,6 +4,7 @@
 package flow
 
 import (
+	"go/constant"
 	"go/token"
 	"go/types"
 
@@ -613,4 +614,86 @@ func CoveredBy(s, r *ssa.BasicBlock) bool {
 		return false
 	}
 	return !reach(s, isExit)
+}
+
+// ReachableUnder reports whether an execution that has completed block `from`
+// with the facts fs holding (on stable conditions) can reach block `to`.  A
+// branch is followed in one direction only when its condition is decided: a
+// constant, a condition the facts decide (CondRel), the negation of one, or a
+// bool phi (`a && b`, `a || b`) whose operand for the edge the execution came
+// along is decided.
+func ReachableUnder(from *ssa.BasicBlock, fs []Fact, to *ssa.BasicBlock) bool {
+	var eval func(v ssa.Value, pred, b *ssa.BasicBlock, depth int) (val, known bool)
+	eval = func(v ssa.Value, pred, b *ssa.BasicBlock, depth int) (bool, bool) {
+		if depth > 6 {
+			return false, false
+		}
+		if c, ok := v.(*ssa.Const); ok && c.Value != nil && c.Value.Kind() == constant.Bool {
+			return constant.BoolVal(c.Value), true
+		}
+		for _, f := range fs {
+			switch CondRel(v, f.Cond) {
+			case 1:
+				return f.True, true
+			case -1:
+				return !f.True, true
+			}
+		}
+		switch x := v.(type) {
+		case *ssa.UnOp:
+			if x.Op == token.NOT {
+				if val, known := eval(x.X, pred, b, depth+1); known {
+					return !val, true
+				}
+			}
+		case *ssa.Phi:
+			if x.Block() == b && pred != nil {
+				for i, p := range b.Preds {
+					if p == pred {
+						return eval(x.Edges[i], nil, nil, depth+1)
+					}
+				}
+			}
+		}
+		return false, false
+	}
+	type state struct{ pred, b *ssa.BasicBlock }
+	seen := map[state]bool{}
+	var stack []state
+	push := func(pred, b *ssa.BasicBlock) {
+		s := state{pred, b}
+		if !seen[s] {
+			seen[s] = true
+			stack = append(stack, s)
+		}
+	}
+	next := func(pred, b *ssa.BasicBlock) {
+		iff, ok := b.Instrs[len(b.Instrs)-1].(*ssa.If)
+		if !ok {
+			for _, s := range b.Succs {
+				push(b, s)
+			}
+			return
+		}
+		if val, known := eval(iff.Cond, pred, b, 0); known {
+			if val {
+				push(b, b.Succs[0])
+			} else {
+				push(b, b.Succs[1])
+			}
+			return
+		}
+		push(b, b.Succs[0])
+		push(b, b.Succs[1])
+	}
+	next(nil, from)
+	for len(stack) > 0 {
+		s := stack[len(stack)-1]
+		stack = stack[:len(stack)-1]
+		if s.b == to {
+			return true
+		}
+		next(s.pred, s.b)
+	}
+	return false
 }
